@@ -18,8 +18,7 @@ func VerifResp_Budget() {
 	verifrt.SetNativeQuiesceMs(350)
 	k := 1 + verifrt.Choose("blocks", verifrt.Param("KMAX", 3))
 	g := verifrt.U64("global-budget")
-	r := verifrt.U64("request-budget")
-	verifrt.Assume(g < 1<<62 && r < 1<<62)
+	verifrt.Assume(g < 1<<62)
 	has := make([]bool, k)
 	for i := range has {
 		has[i] = true
@@ -27,34 +26,42 @@ func VerifResp_Budget() {
 	e := NewEnv(kit.Chain(k), has, 1, g, 1<<40, 1<<30)
 	e.S.Net.NoFaults = true
 	pA := peer.ID("peerA")
-	kA := key{pA, kit.ReqID(0)}
-	e.ReqVerdict[kA] = HookAccept
-	e.MaxLinks[kA] = r
-	e.NewRequest(pA, 0)
-	Drain()
-	w := collect(e, pA, 0)
-	final := graphsync.ResponseStatusCode(0)
-	if len(w.statuses) > 0 {
-		final = w.statuses[len(w.statuses)-1]
-	}
-	loaded := uint64(len(w.md))
-	verifrt.Eventf("k=%d md=%d final=%d reads=%d", k, len(w.md), final, len(e.Store.Reads))
-	// the effective budget: smaller non-zero of g and r
-	n := g
-	if g == 0 || (r != 0 && r < g) {
-		n = r
-	}
-	verifrt.Assert(uint64(len(e.Store.Reads)) == loaded, "C07 blocks read from the store differ from the link loads reported")
-	if n == 0 {
-		verifrt.Cover("no-budget")
-		verifrt.Assert(loaded == uint64(k) && final == graphsync.RequestCompletedFull, "C07 a request without any budget did not complete normally")
-	} else if uint64(k) <= n {
-		verifrt.Cover("within-budget")
-		verifrt.Assert(loaded == uint64(k) && final == graphsync.RequestCompletedFull, "C07 a traversal needing at most N blocks failed or stopped early under the effective budget N")
-	} else {
-		verifrt.Cover("over-budget")
-		verifrt.Assert(loaded == n, "C07 an over-budget traversal did not load exactly N blocks (N = smaller non-zero of the global and per-request budgets)")
-		verifrt.Assert(final == graphsync.RequestFailedUnknown, "C07 an over-budget request did not fail")
+	// two requests one after the other on the same responder, each with its
+	// own per-request budget: the budget of one must not leak into the next
+	nreq := verifrt.Param("REQS", 2)
+	for q := 0; q < nreq; q++ {
+		r := verifrt.U64("request-budget")
+		verifrt.Assume(r < 1<<62)
+		kA := key{pA, kit.ReqID(q)}
+		e.ReqVerdict[kA] = HookAccept
+		e.MaxLinks[kA] = r
+		readsBefore := len(e.Store.Reads)
+		e.NewRequest(pA, q)
+		Drain()
+		w := collect(e, pA, q)
+		final := graphsync.ResponseStatusCode(0)
+		if len(w.statuses) > 0 {
+			final = w.statuses[len(w.statuses)-1]
+		}
+		loaded := uint64(len(w.md))
+		verifrt.Eventf("req%d k=%d md=%d final=%d reads=%d", q, k, len(w.md), final, len(e.Store.Reads)-readsBefore)
+		// the effective budget: smaller non-zero of g and r
+		n := g
+		if g == 0 || (r != 0 && r < g) {
+			n = r
+		}
+		verifrt.Assert(uint64(len(e.Store.Reads)-readsBefore) == loaded, "C07 blocks read from the store differ from the link loads reported")
+		if n == 0 {
+			verifrt.Cover("no-budget")
+			verifrt.Assert(loaded == uint64(k) && final == graphsync.RequestCompletedFull, "C07 a request without any budget did not complete normally")
+		} else if uint64(k) <= n {
+			verifrt.Cover("within-budget")
+			verifrt.Assert(loaded == uint64(k) && final == graphsync.RequestCompletedFull, "C07 a traversal needing at most N blocks failed or stopped early under the effective budget N")
+		} else {
+			verifrt.Cover("over-budget")
+			verifrt.Assert(loaded == n, "C07 an over-budget traversal did not load exactly N blocks (N = smaller non-zero of the global and per-request budgets)")
+			verifrt.Assert(final == graphsync.RequestFailedUnknown, "C07 an over-budget request did not fail")
+		}
 	}
 	verifrt.Reached("end-budget")
 }
